@@ -17,6 +17,7 @@ type entry struct {
 var registry = map[string]entry{
 	"C12": {"exploration", props.C12},
 	"C19": {"fault_enumeration", props.C19},
+	"C20": {"exploration", props.C20},
 }
 
 func main() {
